@@ -64,10 +64,12 @@ Section Equilibrium.
     map (fun p => p * nu * theta0 * bfac beta) raw.
 
   (** ** general dominance *)
+  Variable ovf : F.                             (* threshold of the overflow guard: Qadjust is used iff -2 gamma > ovf *)
   Variable quad : (F -> F) -> F -> F -> F.      (* oracle: quad f a b = integral of f over [a,b] *)
 
-  (** ln(DBL_MAX): exp(y) is infinite in float64 iff y > 709.782712893384 *)
-  Definition ovf : F := nofZ 709782712893384 / nofZ 1000000000000.
+  (** the source's guard [numpy.isinf(numpy.exp(-2*gamma))] is the comparison -2 gamma > ln(DBL_MAX) = 709.782712893384:
+      a float-only phenomenon, carried as an explicit threshold (the harness reads the guard off the current source) *)
+  Definition ovf_float64 : F := nofZ 709782712893384 / nofZ 1000000000000.
   Definition Qf (g h x : F) : F := nfour * g * h * x + n2 * g * (n1 - n2 * h) * (x * x).
   Definition qadjust (g : F) : F := if (g <? n0) && (ovf <? - (n2 * g)) then - (n2 * g) else n0.
   (** exp(-Q(xi) - Qadjust) *)
